@@ -116,6 +116,19 @@ def validate_multi_traces(cases, stats):
     return agree
 
 
+def db_version(desc):
+    """Independent decoder of a version descriptor of the rating database (README / ssh2_kexdb.py header): an optional trailing 'C'
+    marks a client-side version; prefix 'd' = Dropbear SSH, 'l1' = libssh, none = OpenSSH.  -> (product, version, is_client)"""
+    is_client = desc.endswith('C')
+    if is_client:
+        desc = desc[:-1]
+    if desc.startswith('d'):
+        return 'Dropbear SSH', desc[1:], is_client
+    if desc.startswith('l1'):
+        return 'libssh', desc[2:], is_client
+    return 'OpenSSH', desc, is_client
+
+
 def audit_sequence(servers, opts=('-n', '--skip-rate-test'), threads=1, ports=None, hosts=None):
     """Several targets in ONE invocation (-T file, one worker thread => list order).  -> (result, per-target outputs)
     Per-target outputs are text blocks, or JSON elements when -j is among the options."""
